@@ -3,34 +3,34 @@
 import json, sys
 CHECKS = {
  "C01": dict(technique="model-based property testing (proptest): reference model of pytest lookup vs find_fixture_definition at every column",
-             text="Generated-input search: proptest workspaces judged by an independent reference model of the shadowing order at every column of every usage token; deviations are shrunk to a replay file. Exploration only: no absence claim.",
+             text="Generated-input search: proptest workspaces judged by an independent reference model of the shadowing order at every column of every usage token; deviations are shrunk to a replay file; one sub-check enumerates every assignment of one fixture name to 8 provider slots under 2 analysis orders (bounded-exhaustive for that space only); an LSP sub-check compares textDocument/definition with the library on the same tree. Exploration only: no absence claim.",
              note="trusted: the reference model (engine/src/model.rs), the renderer's token table, in-memory path semantics of the index", ref="DESIGN.md 4 C01", engine="vengine"),
  "C06": dict(technique="metamorphic property testing over generated edit histories (proptest): history index == fresh index of latest valid contents at every prefix",
              text="Generated-input search over edit histories; oracle is the metamorphic relation between the index reached through a history and a freshly built index (no model). Exploration only.",
              note="trusted: the implementation itself as its own reference on a fresh database; invalid texts are invalid by construction", ref="DESIGN.md 4 C06", engine="vengine"),
  "C04": dict(technique="metamorphic property testing (proptest) over workspaces and edit histories: U in refs(D) <=> goto(U) == D",
-             text="Generated-input search; the oracle is the inverse relation between two queries of the implementation plus the forward/reverse index invariant. Exploration only.",
+             text="Generated-input search; the oracle is the inverse relation between two queries of the implementation plus the forward/reverse index invariant; further sub-checks: edit histories, documents revisited by the scan path, LSP counters and CLI counts on materialised trees, and the real-world workspaces found offline (test suites of installed packages) scanned in place. Exploration only.",
              note="trusted: nothing beyond the harness (pure cross-query relation); LSP/CLI counters are compared in sub-checks when built", ref="DESIGN.md 4 C04", engine="vengine"),
  "C05": dict(technique="differential property testing (proptest): cross-feature agreement of the four resolvers at every usage",
-             text="Generated-input search; oracle is agreement between go-to-definition, the available-fixtures view, the outgoing-call resolver and position lookup, observed through probe tests. Exploration only.",
+             text="Generated-input search; oracle is agreement between go-to-definition, the available-fixtures view, the outgoing-call resolver and position lookup, observed through probe tests; sub-checks: documents closed before the comparison, seven LSP features per position against the real server, and every real-world pytest-style file found offline on an index of its own. Exploration only.",
              note="trusted: nothing beyond the harness (pure cross-feature comparison)", ref="DESIGN.md 4 C05", engine="vengine"),
  "C07": dict(technique="metamorphic stateful property testing (proptest op sequences): warm index with interleaved queries == cold twin with the same analyses",
-             text="Generated-input search over programs of analyses, edits and queries; oracle is equality of every warm answer with the answer of a cold twin index. Exploration only.",
-             note="trusted: the implementation on a fresh database as reference; in-memory paths for the main tier", ref="DESIGN.md 4 C07", engine="vengine"),
+             text="Generated-input search over programs of analyses, edits and queries; oracle is equality of every warm answer with the answer of a cold twin index; an on-disk sub-check adds document closes and cache eviction (2001 filler files), optionally with resident shadow packages. Exploration only.",
+             note="trusted: the implementation on a fresh database as reference; in-memory paths for the main sub-check, files on disk equal to the last version sent for the close / evict sub-check", ref="DESIGN.md 4 C07", engine="vengine"),
  "C02": dict(technique="model-based property testing (proptest): reference model with self-exclusion at every column of overriding definition lines",
-             text="Generated-input search over override chains; oracle is the reference model (next link outward, reference sets per link). Exploration only.",
+             text="Generated-input search over override chains; oracle is the reference model (next link outward, reference sets per link); one sub-check enumerates all 3^8 x 2 override chains over 8 provider slots (bounded-exhaustive for that space only); an LSP sub-check asks textDocument/references from both columns of every overriding definition line. Exploration only.",
              note="trusted: reference model (model.rs), renderer token table; single-line signatures", ref="DESIGN.md 4 C02", engine="vengine"),
  "C16": dict(technique="model-based property testing (proptest): reference definition-level dependency graph (SCCs, scope order) vs reported diagnostics",
              text="Generated-input search over dependency graphs spread across files; oracle is the model's definition-level graph: reported paths must be real closed chains, cyclic SCCs must be reported, scope warnings must equal the model set, reports must be stable under recomputation. Exploration only.",
              note="trusted: reference model (model.rs); Tarjan SCC in the harness", ref="DESIGN.md 4 C16", engine="vengine"),
  "C08": dict(technique="metamorphic property testing (proptest): observable snapshot invariant under permutations of the per-file analysis order",
-             text="Generated-input search over workspaces with colliding names; oracle is equality of the full observable snapshot across analysis orders on fresh indexes. Exploration only.",
+             text="Generated-input search over workspaces with colliding names; oracle is equality of the full observable snapshot across analysis orders on fresh indexes (all orders for workspaces of <= 6 files in one sub-check), across real parallel scans in child processes with 1/2/3/5/8 workers on widened materialised workspaces, and across 1/3/8-worker scans of real-world package test suites. Differences are admitted entry by entry only with the signature of the two recorded findings. Exploration only.",
              note="trusted: the claim (read from scanner.rs) that the scan's schedule reaches the index only through per-file analysis order and DashMap-op interleaving (the latter is C09's)", ref="DESIGN.md 4 C08", engine="vengine"),
  "C03": dict(technique="differential property testing (proptest grammar generator) against an extraction done with CPython's ast/tokenize; plus a real-world corpus as false-alarm guard",
              text="Generated-input search over pytest-style modules; oracle is an independent extractor written on CPython's own parser applying the documented recognisers, compared record by record. Exploration only.",
              note="trusted: CPython 3.11 ast/tokenize, oracle/pyoracle.py's reading of the documented forms", ref="DESIGN.md 4 C03", engine="vengine"),
- "C11": dict(technique="property-based fuzzing (proptest): grammar-generated documents with character-level mutation, stale-position histories, fault-injected trees; no-panic / one-response-per-request / fault-isolation oracles",
-             text="Generated-input search for crashes: every public library entry point under catch_unwind, the real server over stdio with liveness probe, scans of trees with injected faults compared per file with the fault-free scan. Exploration only; libFuzzer campaign in the thorough tier when built.",
+ "C11": dict(technique="property-based fuzzing (proptest; libFuzzer via cargo-fuzz in the thorough tier): grammar-generated documents with character-level mutation, stale-position histories, fault-injected trees; no-panic / one-response-per-request / fault-isolation oracles",
+             text="Generated-input search for crashes: every public library entry point under catch_unwind, the real server over stdio with liveness probe, scans of trees with injected faults compared per file with the fault-free scan. Real-world files found offline are used as first versions of mutation histories too. The thorough tier adds a structure-aware libFuzzer campaign (fuzz/fz_session, 14 workers, pinned seeds). Exploration only.",
              note="trusted: release profile equals the shipped configuration; watchdog expiry without panic evidence is inconclusive", ref="DESIGN.md 4 C11", engine="vengine"),
  "C15": dict(technique="differential property testing (proptest grammar generator) of every LSP range against CPython tokenize/ast token positions in UTF-16 units",
              text="Generated-input search over position-stressing documents served by the real binary; oracle is the token table computed independently by CPython, plus structural LSP rules (inside document, start<=end, selection inside range, no duplicates). Exploration only.",
@@ -57,10 +57,10 @@ CHECKS = {
              text="Generated-input search over file contents AND thread schedules: the harness owns the interleaving of the DashMap operations of 2-3 concurrent analyses (random and context-bounded schedules, 2-shard and all-keys-collide placement); oracle: membership in the set of sequential outcomes computed on the real code. Exploration; the thorough tier enumerates every <=2-preemption schedule of sampled task pairs.",
              note="trusted: shims/dashmap (dashmap 6.1.0 + additive hooks), the scheduler in verif_hooks.rs; atomicity between two lock acquisitions of one thread", ref="DESIGN.md 4 C09", engine="vsched"),
  "C10": dict(technique="schedule-controlled property testing (proptest-generated schedules, owned scheduler): scan-path analysis vs editor analysis of ONE file; scan-then-editor state and +1-change restoration as oracles",
-             text="Generated-input search over disk/buffer texts and schedules of the scan worker and the editor analysis of the same document; oracle: quiescent state == sequential scan->editor state, and one more change == single-analysis state of a fresh index. Exploration only.",
+             text="Generated-input search over disk/buffer texts and schedules of the scan worker and the editor analysis of the same document; oracle: quiescent state == sequential scan->editor state, and one more change == single-analysis state of a fresh index. Deterministic sub-checks without concurrency: the real scan after an editor notification for a module reached only through imports (or after mere queries), and the scan path revisiting an opened document with unchanged text (everything but the duplicated definitions of the recorded finding must be there once). Exploration only.",
              note="trusted: shims/dashmap + scheduler; the verif hook exposing the scan's no-cleanup path", ref="DESIGN.md 4 C10", engine="vsched"),
  "C12": dict(technique="property-based testing with an invariant over recorded lock nestings (instrumented DashMap), generated schedules with deterministic deadlock detection, step-bounded cyclic inputs, and generated LSP sessions against the real server built on the instrumented DashMap in all-keys-collide mode",
-             text="Generated-input search over workloads, schedules, cyclic inputs and pipelined server sessions; oracle: no conflicting re-entrant acquisition per map, no cycle of conflicting waits between maps, no controller deadlock, every operation within a step bound. Exploration only: potential deadlocks are inferred from nestings that some generated run executed.",
+             text="Generated-input search over workloads, schedules, cyclic inputs and pipelined server sessions; oracle: no conflicting re-entrant acquisition per map, no cycle of conflicting waits between maps, no controller deadlock, every operation within a step bound. Exploration only: potential deadlocks are inferred from nestings that some generated run executed. Lock-free text scans of half-typed documents run on a helper thread; one that does not return within 20 s makes the run inconclusive (exit 2), never a violation.",
              note="trusted: shims/dashmap hooks; reader-preferring semantics of dashmap's lock (read-in-read is safe); the wrapper crate sched/server compiling the real main.rs/providers against the shim", ref="DESIGN.md 4 C12", engine="vsched"),
 }
 PENDING = {
